@@ -109,8 +109,8 @@ func H_two() {
 	}
 	gotY := sx.Log[0].Kind == 'M' && sx.Log[0].I == 1
 	gotX := sx.Log[1].Kind == 'M' && sx.Log[1].I == 1
-	symx.AssertKnown(gotY == (kind == b), "second instance enforces its own type argument", a != b, "C19-first-instantiation-wins")
-	symx.AssertKnown(gotX == (kind == a), "first instance keeps enforcing its own type argument", a != b, "C19-first-instantiation-wins")
+	symx.Assert(gotY == (kind == b), "second instance enforces its own type argument")
+	symx.Assert(gotX == (kind == a), "first instance keeps enforcing its own type argument")
 	symx.Reach("end")
 }
 
@@ -311,5 +311,55 @@ func H_site_reuse() {
 	symx.Assert(acc(0), "the first instance accepts a value of its own type argument")
 	symx.Assert(acc(1) == (kind == b), "the second instance through the same site enforces ITS type argument")
 	symx.Assert(acc(2) == (kind == a), "the first instance through the same site still enforces its own")
+	symx.Reach("end")
+}
+
+// H_template_first: the un-instantiated class is used BEFORE the typed instantiations (a raw
+// `new Box()`, an instance of a non-generic subclass, a read or a write of a T-typed member on
+// it); afterwards Box<A> and Box<B> each accept exactly their own type argument in both T-typed
+// members, whichever of the two instances uses the member first.
+func H_template_first() {
+	a, b, kind := symx.Choose("A", 4), symx.Choose("B", 4), symx.Choose("kind", 4)
+	touch := symx.Choose("touch", 6)
+	member := []string{"v", "w"}[symx.Choose("member", 2)]
+	bFirst := symx.Choose("b_first", 2) == 1
+	w := symx.Int("w")
+	src := "class U {}\nclass Box<T> { public T $v; public T $w; public function set(T $x) { $this->v = $x; return 1; } }\nclass Sub extends Box {}\n"
+	switch touch {
+	case 1:
+		src += "$raw = new Box(); $raw->v = \"anything\";\n"
+	case 2:
+		src += "$raw = new Box(); $raw->w = [1];\n"
+	case 3:
+		src += "$raw = new Box(); $raw->v = 1; $t = $raw->v;\n"
+	case 4:
+		src += "$sub = new Sub(); $sub->v = \"anything\";\n"
+	case 5:
+		src += "$raw = new Box(); $raw->set(\"anything\");\n"
+	}
+	src += "$x = new Box<" + typeArgs[a] + ">();\n$y = new Box<" + typeArgs[b] + ">();\n"
+	wr := func(v, e string) string {
+		return "try { " + v + "->" + member + " = " + e + "; mark(1); } catch (Throwable $e) { mark(0); }\n"
+	}
+	if bFirst {
+		src += "$y->" + member + " = " + valueExprs[b] + ";\n"
+	} else {
+		src += "$x->" + member + " = " + valueExprs[a] + ";\n"
+	}
+	src += wr("$x", valueExprs[kind]) + wr("$y", valueExprs[kind])
+	s := sx.Compile(src)
+	symx.Assert(s.Err == nil, "history parses")
+	if s.Err != nil {
+		return
+	}
+	_, ctl := s.Run(sx.Bind{Name: "pw", V: sx.Int(w)})
+	symx.Assert(ctl == nil && len(sx.Log) == 2, "history runs, one outcome per write")
+	if ctl != nil || len(sx.Log) != 2 {
+		return
+	}
+	gotX := sx.Log[0].Kind == 'M' && sx.Log[0].I == 1
+	gotY := sx.Log[1].Kind == 'M' && sx.Log[1].I == 1
+	symx.Assert(gotX == (kind == a), "after the template was used raw, Box<A> accepts exactly A")
+	symx.Assert(gotY == (kind == b), "after the template was used raw, Box<B> accepts exactly B")
 	symx.Reach("end")
 }
